@@ -439,8 +439,11 @@ class FmtStr:
             before = self.chunks
             if isinstance(s, FmtStr):
                 chunks.extend(s.chunks)
-            elif isinstance(s, (bytes, str)):
-                chunks.extend(fmtstr(s).chunks)  # TODO just make a chunk directly
+            elif isinstance(s, str):
+                # a plain str item is taken verbatim and unformatted, like the str operand of +
+                chunks.append(Chunk(s))
+            elif isinstance(s, bytes):
+                chunks.extend(fmtstr(s).chunks)  # (rejected by fmtstr, as before)
             else:
                 raise TypeError("expected str or FmtStr, %r found" % type(s))
         return FmtStr(*chunks)
